@@ -675,6 +675,21 @@ def fam_builtins(tier, seed):
         for i, ch in enumerate(members[b]):
             out.append(Witness("builtins_%s_lit%d" % (b, i), "builtins", Def(top=rules(
                 plus(B(b)), cat(C(ch), C("#")), C("#")))))
+    # built-ins inside class expressions: as operands of `#` and `|`, nested on either side
+    lo, al, asc, dig, alnum, hexd = (B("ascii_lowercase"), B("alphabetic"), B("ascii"), B("ascii_digit"),
+                                     B("ascii_alphanumeric"), B("ascii_hexdigit"))
+    nested = [
+        ("or_of_diff_minus_char", diff(alt(lo, diff(al, asc)), C("q"))),
+        ("diff_of_or_of_diff", diff(B("alphanumeric"), alt(dig, diff(alnum, hexd)))),
+        ("diff_left_nested", diff(diff(alnum, dig), hexd)),
+        ("or_diff_or", alt(diff(alnum, hexd), alt(dig, C("_")))),
+        ("diff_then_or_left", diff(alt(diff(al, asc), lo), C("q"))),
+        ("var_nested", diff(alt(V("lower"), diff(V("letters"), asc)), C("q"))),
+    ]
+    for n, e in nested:
+        lets = [("lower", lo), ("letters", al)] if n == "var_nested" else []
+        out.append(single("builtins_nested_%s" % n, "builtins", e, lets))
+        out.append(single("builtins_nested_%s_then" % n, "builtins", cat(e, C("!")), lets))
     if tier == "thorough":
         for b in LARGE_BUILTINS:
             # terminal target: one match arm per range
